@@ -31,6 +31,8 @@ class Gen:
         self.sig_out = []
         self.sig_mid = []
         self.counter = 0
+        self.depth_now = 0         # nesting depth of the block being generated
+        self.outer_names = []      # scalar locals declared in enclosing blocks
         self.features = set()
 
     # ---- expressions ----
@@ -79,7 +81,12 @@ class Gen:
             return "(%s%s)" % (op, self.expr(depth - 1, signals_ok))
         if c < 0.84 and not arith_only:
             self.features.add("ternary")
-            return "(%s ? %s : %s)" % (self.cond(depth - 1, signals_ok), self.expr(depth - 1, signals_ok), self.expr(depth - 1, signals_ok))
+            if r.random() < 0.45:      # a field element as condition (non-zero is true), e.g. a negative constant
+                self.features.add("ternary-field-cond")
+                c = self.expr(depth - 1, signals_ok)
+            else:
+                c = self.cond(depth - 1, signals_ok)
+            return "(%s ? %s : %s)" % (c, self.expr(depth - 1, signals_ok), self.expr(depth - 1, signals_ok))
         if c < 0.9 and not arith_only:
             self.features.add("call")
             return "ext(%s)" % ", ".join(self.expr(depth - 1, signals_ok) for _ in range(r.randrange(0, 3)))
@@ -97,6 +104,9 @@ class Gen:
 
     # ---- statements ----
     def fresh(self, prefix):
+        if prefix == "v" and self.depth_now > 0 and self.outer_names and self.r.random() < 0.3:
+            self.features.add("shadowing")
+            return self.r.choice(self.outer_names)
         self.counter += 1
         return "%s%d" % (prefix, self.counter)
 
@@ -140,6 +150,9 @@ class Gen:
         if c < 0.68 and depth > 0:
             self.features.add("if")
             saved = (list(self.locals), list(self.uninit), list(self.arrays))
+            saved_outer = list(self.outer_names)
+            self.outer_names = [x for x in self.locals if x.startswith("v")]
+            self.depth_now += 1
             out = ["%sif %s {" % (ind, self.cond(1))]
             for _ in range(r.randrange(1, 3)):
                 out += self.stmt(depth - 1, in_loop)
@@ -152,10 +165,15 @@ class Gen:
                     out += self.stmt(depth - 1, in_loop)
                 self.locals, self.arrays = list(saved[0]), list(saved[2])
             self.uninit = [u for u in saved[1]]
+            self.depth_now -= 1
+            self.outer_names = saved_outer
             out.append("%s}" % ind)
             return out
         if c < 0.8 and depth > 0:
             saved = (list(self.locals), list(self.uninit), list(self.arrays))
+            saved_outer = list(self.outer_names)
+            self.outer_names = [x for x in self.locals if x.startswith("v")]
+            self.depth_now += 1
             k = r.random()
             if k < 0.5:
                 self.features.add("for")
@@ -171,6 +189,8 @@ class Gen:
             if k >= 0.5:
                 out.append("%s  %s = %s + 1;" % (ind, v, v))
             self.locals, self.uninit, self.arrays = saved
+            self.depth_now -= 1
+            self.outer_names = saved_outer
             out.append("%s}" % ind)
             return out
         if self.template:
@@ -220,7 +240,13 @@ def targeted(rng, curve="BN254"):
     values merged at joins, loops, every operator on constants)."""
     p = PRIMES[curve]
     lit = lambda: str(rng.choice([0, 1, 2, 3, 5, p - 1, p // 2, p // 2 + 1, 255, 256, 1 << 20]))
-    k = rng.randrange(8)
+    k = rng.randrange(11)
+    if k == 8:     # field element (possibly "negative") as ternary condition
+        return ("function f() { var d = %s - %s; var s = d ? %s : %s; if (s == %s) { return 1; } return s; }" % (lit(), lit(), lit(), lit(), lit()))
+    if k == 9:     # same-named variables that both need a phi in one block (shadowing inside a loop)
+        return ("function f(n) { var t = %s; var i = 0; while (i < n) { if (i == %s) { var t = i * 2; i = i + t; } t += i; i += 1; } return t; }" % (lit(), lit()))
+    if k == 10:    # prefix operators and boolean connectives on field elements
+        return ("function f() { var a = %s; var b = %s; var c = (!a) || (a && b); var d = -a; if (c == %s) { return d; } return c; }" % (lit(), lit(), lit()))
     if k == 0:
         return ("function f(x) { var y; if (x == %s) { y = %s; } if (y == %s) { return 1; } return y; }" % (lit(), lit(), lit()))
     if k == 1:
